@@ -313,6 +313,46 @@ let handle_opt_state (which : string) (toks : string list) : string =
      | OptStuck -> "stuck")
   | _ -> "bad:args"
 
+(* ---- interactive interpreter ---- *)
+let end_str (e : rend) : string =
+  match e with
+  | RAlive -> "alive" | RQuit -> "quit" | RProgExit c -> "exit" ^ nstr c
+  | RFail (EEnc n) -> "err:enc:" ^ nstr n | RFail EIo -> "err:io" | RFuelOut -> "fuel" | RPanicked -> "panic"
+(* repl <fx12:0|1> <fuel> <line>;<line>;...   (each line a code-point field, may be empty) *)
+let handle_repl (toks : string list) : string =
+  match toks with
+  | fx :: ms :: rest ->
+    let field = (match rest with [] -> "" | t :: _ -> t) in
+    let lines = List.map cps_of_field (String.split_on_char ';' field) in
+    let (evs, e) = repl_run (fx = "1") (nat_of_int (int_of_string ms)) lines in
+    String.concat "|" (List.map (fun ev -> match ev with
+        | EvNothing -> "N" | EvHelp -> "H" | EvFlush (o, x) -> "F:" ^ dotted o ^ ":" ^ dotted x) evs)
+    ^ "|END:" ^ end_str e
+  | _ -> "bad:args"
+
+(* ---- debugger ---- *)
+let dend_str (e : dend) : string =
+  match e with
+  | DEof -> "eof" | DQuit -> "quit" | DFinished -> "finished" | DProgExit c -> "exit" ^ nstr c
+  | DFail (EEnc n) -> "err:enc:" ^ nstr n | DFail EIo -> "err:io" | DPanic -> "panic" | DFuelOut -> "fuel"
+let devent_str (ev : devent) : string =
+  match ev with
+  | DvPrompt -> "P" | DvShowCode l -> "C:" ^ dotted l | DvFlush (o, e) -> "F:" ^ dotted o ^ ":" ^ dotted e
+  | DvMovedBack -> "MB" | DvCantGoBack -> "CGB" | DvState k -> "S:" ^ nstr k | DvListBreaks -> "LB"
+  | DvIntErr IEmpty -> "IE:Empty" | DvIntErr IInvalid -> "IE:InvalidDigit" | DvIntErr IOverflow -> "IE:PosOverflow"
+  | DvRange -> "RG" | DvSet n -> "SET:" ^ nstr n | DvUnset n -> "UNSET:" ^ nstr n | DvHelp -> "H"
+  | DvNotFound w -> "NF:" ^ dotted w
+(* debug <fx11> <fx13> <fuel> <prog> <line>;<line>;... *)
+let handle_debug (toks : string list) : string =
+  match toks with
+  | f11 :: f13 :: ms :: prog :: rest ->
+    let code = prog_of prog in
+    let field = (match rest with [] -> None | t :: _ -> Some t) in
+    let lines = (match field with None -> [] | Some t -> List.map cps_of_field (String.split_on_char ';' t)) in
+    let (evs, e) = debug_run (f11 = "1") (f13 = "1") (nat_of_int (int_of_string ms)) code lines in
+    String.concat "|" (List.map devent_str evs) ^ "|END:" ^ dend_str e
+  | _ -> "bad:args"
+
 let () =
   try
     while true do
@@ -329,6 +369,8 @@ let () =
           | "exec" :: "pre" :: rest -> handle_exec_pre rest
           | "exec" :: "run" :: rest -> handle_exec_run rest
           | "spec" :: "pre" :: rest -> handle_spec_pre rest
+          | "repl" :: rest -> handle_repl rest
+          | "debug" :: rest -> handle_debug rest
           | ("opt" | "optpin" as w) :: "run" :: rest -> handle_opt_run w rest
           | ("opt" | "optpin" as w) :: "state" :: rest -> handle_opt_state w rest
           | "spec" :: "run" :: rest -> handle_spec_run rest
